@@ -145,6 +145,34 @@ def point_mixture_cases():
         yield {'name': 'point_isotherms|n=3|used_then_converted_to_mol', 'ok': not probs, 'detail': '; '.join(probs)[:300]}
     except Exception as exc:
         yield {'name': 'point_isotherms|n=3|fresh', 'ok': type(exc).__name__ == 'CalculationError', 'detail': f"{type(exc).__name__}: {exc}"[:200]}
+    # two branches: the desorption branch lies on another curve and is stored from high to low pressure
+    up = numpy.concatenate([numpy.linspace(0.02, 1, 20), numpy.linspace(1.5, 12, 22)])
+
+    def mk2(K, i):
+        pp = list(up) + list(up[::-1][1:])
+        ll = [M * K * x / (1 + K * x) for x in up] + [M * 1.6 * K * x / (1 + 1.6 * K * x) for x in up[::-1][1:]]
+        return pygaps.PointIsotherm(pressure=pp, loading=ll, branch=[0] * len(up) + [1] * (len(up) - 1), material='m', adsorbate=f'pgv_gas{i}', temperature=300,
+                                    pressure_mode='absolute', pressure_unit='bar', loading_basis='molar', loading_unit='mmol', material_basis='mass',
+                                    material_unit='g', temperature_unit='K')
+    both = [mk2(K, i) for i, K in enumerate(Ks[:2])]
+    for br in ('ads', 'des'):
+        try:
+            res = numpy.asarray(pgi.iast_point(both, [0.6, 1.1], branch=br, warningoff=True))
+            x = res / res.sum()
+            p0 = numpy.array([0.6, 1.1]) / x
+            pis = [float(iso.spreading_pressure_at(p0[i], branch=br)) for i, iso in enumerate(both)]
+            inv = sum(x[i] / float(both[i].loading_at(p0[i], branch=br)) for i in range(2))
+            want = [M * (Ks[i] * (1.6 if br == 'des' else 1.0)) * [0.6, 1.1][i] / (1 + sum(Ks[j] * (1.6 if br == 'des' else 1.0) * [0.6, 1.1][j] for j in range(2))) for i in range(2)]
+            probs = []
+            if not numpy.isclose(pis[0], pis[1], rtol=1e-4):
+                probs.append(f"spreading pressures on the {br} branch differ: {pis}")
+            if not numpy.isclose(1 / inv, res.sum(), rtol=1e-4):
+                probs.append(f"ideal mixing on the {br} branch violated: {1 / inv} vs {res.sum()}")
+            if not numpy.allclose(res, want, rtol=2e-2):
+                probs.append(f"far from the extended-Langmuir value of that branch: {res} vs {want}")
+            yield {'name': f"point_isotherms|two_branches|branch={br}", 'ok': not probs, 'detail': '; '.join(probs)[:300]}
+        except Exception as exc:
+            yield {'name': f"point_isotherms|two_branches|branch={br}", 'ok': type(exc).__name__ == 'CalculationError', 'detail': f"{type(exc).__name__}: {exc}"[:200]}
 
 
 @replayer('c13.point')
